@@ -154,7 +154,13 @@ def run(tier):
                         break
                 k = rng.randrange(nd)
                 off = rng.choice([0, -360, 360, 720])
-                if rng.random() < 0.4:
+                regular_inside = [(g_, n_) for g_ in (5, 10, 15, 20, 30, 40, 45, 60, 90) for n_ in range(3, 40) if 180 < (n_ - 1) * g_ < 360]
+                if j % 5 == 4:
+                    # equal interior gaps, a different closing gap (e.g. 0, 10, ..., 340): regular to np.diff, not to the circle
+                    g_, n_ = rng.choice(regular_inside)
+                    st_ = 5 * rng.randint(-36, 36)
+                    d2 = [st_ + i_ * g_ for i_ in range(n_)]
+                elif rng.random() < 0.4:
                     d2 = dirs[k:] + dirs[:k]                     # reduced into [0, 360): the branch cut is inside the array
                 else:
                     d2 = dirs[k:] + [x + 360 for x in dirs[:k]]
